@@ -170,8 +170,26 @@ func genOps(c *vf.Ctx, i int, single bool) []op {
 		ops = append(ops, op{Kind: "write", Arg: 1}, op{Kind: "boot", Arg: 0}, op{Kind: "write", Arg: 2}, op{Kind: "join-plain"})
 		w, l = 3, 1
 	}
+	if single && i%2 == 1 {
+		// directed: incremental snapshots before a load that are still in the
+		// store when the load's full snapshot and later incrementals arrive, so
+		// that the automatic reap consolidates across the load; then a node joins
+		// by snapshot and has to end up with the loaded database plus later writes
+		for _, k := range []string{"write", "write", "write", "snapshot", "write", "write", "write", "snapshot", "load", "write", "snapshot", "write", "snapshot", "write", "join"} {
+			o := op{Kind: k}
+			switch k {
+			case "write":
+				o.Arg = w
+				w++
+			case "load":
+				o.Arg = l
+				l++
+			}
+			ops = append(ops, o)
+		}
+	}
 	n := c.N(9, 15)
-	joined := single && i%2 == 0
+	joined := single
 	for j := 0; j < n; j++ {
 		k := kinds[r.IntN(len(kinds))]
 		o := op{Kind: k, Node: r.IntN(3)}
